@@ -261,6 +261,23 @@ def explicit_internal(data: bytes, rate: float = 1.0, seed: int = 0) -> bytes:
     return write_members(out)
 
 
+def unlist_slide(data: bytes, k: int = 0) -> bytes:
+    """A slide taken out of p:sldIdLst whose relationship and part stay behind (what several tools leave after "deleting" a slide):
+    the listed slides' part names are then non-contiguous in presentation order."""
+    P = "{http://schemas.openxmlformats.org/presentationml/2006/main}"
+    out = []
+    for n, b in read_members(data):
+        if n == "ppt/presentation.xml":
+            root = refpkg.parse(b)
+            lst = root.find(P + "sldIdLst")
+            els = [e for e in lst if isinstance(e.tag, str)] if lst is not None else []
+            if els:
+                lst.remove(els[k % len(els)])
+                b = etree.tostring(root, xml_declaration=True, encoding="UTF-8", standalone=True)
+        out.append((n, b))
+    return write_members(out)
+
+
 def drop_notes_master_rel(data: bytes) -> bytes:
     """A legal but unusual deck: notes slides (each related to the notes master) while the presentation part itself has
     neither the notesMaster relationship nor the p:notesMasterIdLst entry."""
@@ -321,6 +338,8 @@ def apply(data: bytes, x: dict) -> bytes:
         return rewrite_slides(data, x.get("how", "strip_tblPr"))
     if kind == "drop_notes_master_rel":
         return drop_notes_master_rel(data)
+    if kind == "unlist_slide":
+        return unlist_slide(data, x.get("k", 0))
     if kind == "explicit_internal":
         return explicit_internal(data, x.get("rate", 1.0), x.get("seed", 0))
     if kind == "respell_rids":
